@@ -9,7 +9,10 @@ grep -q "__wrap_free" $d/demo.c && W="$W,--wrap=free"
 grep -q "__wrap_strdup" $d/demo.c && W="$W,--wrap=strdup"
 [ -n "$W" ] && W="-Wl$W"
 T=$(mktemp -d /tmp/rd.XXXXXX)
+# the demonstrations write their scratch files under the (removed) audit worktrees: recreate those directories
+DIRS=$(grep -o '/tmp/au_[0-9]*/out/[0-9A-Za-z_]*' $d/demo.c | sort -u)
+for x in $DIRS; do mkdir -p $x; done
 SRCS=$(ls /repo/src/vna*.c | grep -v -- "-example\|/vnacal-\|test" | tr '\n' ' ')
 clang -fsanitize=address,undefined -g -O0 -w -DHAVE_CONFIG_H -I/repo -I/repo/src -I/verif/audit $d/demo.c $SRCS /repo/src/archdep.c $W -lyaml -lm -o $T/demo 2>&1 | tail -3
 ( cd $T && timeout 60 ./demo > out.txt 2>&1; echo "exit=$?" >> out.txt; tail -${2:-6} out.txt | cut -c1-200 )
-rm -rf $T
+rm -rf $T /tmp/au_[0-9]*
